@@ -25,6 +25,9 @@ theorem readBE_some {w : Nat} {s d r : Bytes} (h : takeN w s = some (d, r)) : re
     subst h1; subst h2
     simp [*, Model.CborParser.bigToNative_eq_beVal]
 
+theorem readBE_one (x : Nat) (s : Bytes) : readBE 1 (x :: s) = .ok x s := by
+  simp [readBE, Model.CborParser.bigToNative]
+
 theorem readSpan_none {n : Nat} {s : Bytes} (h : takeN n s = none) : readSpan n s = .fail (.err .unexpectedEof) := by
   unfold takeN at h; unfold readSpan
   split at h <;> simp_all
